@@ -25,10 +25,10 @@ type WCOp struct {
 }
 
 type WCScenario struct {
-	NCtx    int     `json:"nctx"`
+	NCtx    int      `json:"nctx"`
 	Drivers [][]WCOp `json:"drivers"`
-	Profile string  `json:"profile"`
-	RW      bool    `json:"rw,omitempty"` // waiters use the read side of a RWMutex (cond.L = rw.RLocker())
+	Profile string   `json:"profile"`
+	RW      bool     `json:"rw,omitempty"` // waiters use the read side of a RWMutex (cond.L = rw.RLocker())
 }
 
 type wcExec struct {
@@ -204,7 +204,7 @@ func runWaitCondExec(execID int, sci any, e *Env) []rec.Ev {
 	x.ctxs = make([]context.Context, sc.NCtx+1)
 	x.cancels = make([]context.CancelFunc, sc.NCtx+1)
 	for i := 1; i <= sc.NCtx; i++ {
-		x.ctxs[i], x.cancels[i] = context.WithCancel(context.Background())
+		x.ctxs[i], x.cancels[i] = withCancelCause(context.Background())
 	}
 	e.R.Add(rec.Ev{"ev": "reset", "exec": execID, "mode": e.Mode, "rw": sc.RW})
 	for i, ops := range sc.Drivers {
